@@ -269,4 +269,3 @@ func declKey(fd *ast.FuncDecl) string {
 	}
 	return fd.Name.Name
 }
-
